@@ -603,11 +603,11 @@ Qed.
 Lemma allowed_use_sound k : allowed_use k = true ->
   exists u, use_kind_code u = k /\ u <> UFormat /\ u <> USerialize /\ u <> UOther.
 Proof.
-  unfold allowed_use. intros H. apply N.leb_le in H.
-  assert (C : k = 0 \/ k = 1 \/ k = 2 \/ k = 3 \/ k = 4 \/ k = 5 \/ k = 6 \/ k = 7 \/ k = 8 \/ k = 9) by lia.
-  destruct C as [-> | [-> | [-> | [-> | [-> | [-> | [-> | [-> | [-> | ->]]]]]]]]];
+  unfold allowed_use. intros H. apply orb_true_iff in H. rewrite N.leb_le, N.eqb_eq in H.
+  assert (C : k = 0 \/ k = 1 \/ k = 2 \/ k = 3 \/ k = 4 \/ k = 5 \/ k = 6 \/ k = 7 \/ k = 8 \/ k = 9 \/ k = 13) by lia.
+  destruct C as [-> | [-> | [-> | [-> | [-> | [-> | [-> | [-> | [-> | [-> | ->]]]]]]]]]];
     [exists UDecl | exists UMove | exists UResolve | exists UPresence | exists UBearerAuth | exists URequestHeader
-     | exists UNameProjection | exists UEnvRead | exists UEnvSet | exists UTestOnly];
+     | exists UNameProjection | exists UEnvRead | exists UEnvSet | exists UTestOnly | exists UDeserErrDropped];
     (split; [reflexivity | repeat split; discriminate]).
 Qed.
 
